@@ -457,6 +457,14 @@ def do_op(op: dict, files: dict) -> dict:
 
                 DecayLanguageDecay.run(["decaylanguage", "-G", "goofit" if op["lang"] == "cpp" else "goofitpy", path], exit=False)
                 ret = None
+            elif op.get("bystander"):
+                # while this conversion runs, another thread of the caller gets one turn at a seeded line boundary and
+                # prints a line of its own to the process's stdout
+                from simkit.inject import BystanderInjector
+
+                inj = BystanderInjector(int(op["bystander"]["k"]), lambda: print(op["bystander"]["text"]))
+                ret = inj.run(fn, path, ret_output=bool(op.get("ret")))
+                return {"kind": "text", "returned": ret, "stdout": sink.getvalue(), "bystander_fired": inj.fired, "line_events": inj.count}
             else:
                 ret = fn(path, ret_output=bool(op.get("ret")))
         return {"kind": "text", "returned": ret, "stdout": sink.getvalue()}
@@ -609,6 +617,9 @@ def allowed_missing(text: str) -> list:
     return out
 
 
+BYSTANDER_LINE = "[worker 2] heartbeat: another thread of the caller wrote this line"
+
+
 def run_c19(args: dict) -> dict:
     """One session: 1-2 option files, their conversion replicas interleaved in a seeded order.
 
@@ -633,12 +644,17 @@ def run_c19(args: dict) -> dict:
     try:
         last_file = None
         seen_files = set()
+        seen_ops: list = []
         for fi, idx in order:
             f = flist[fi]
             lang, how = REPLICAS[idx]
             op = {"op": "convert", "lang": lang, "file": f["name"], "ret": how == "ret"}
             if how == "cli":
                 op["via"] = "cli"
+            by = (args.get("bystander") or {}).get(str(len(seen_ops)))
+            seen_ops.append(idx)
+            if by and how == "ret":
+                op["bystander"] = {"k": int(by), "text": BYSTANDER_LINE}
             if fi in seen_files and last_file != fi:
                 stats["replicas_with_other_file_in_between"] += 1
             seen_files.add(fi)
@@ -660,6 +676,9 @@ def run_c19(args: dict) -> dict:
                 continue  # nothing is promised about the call that met the fault, only about the ones after it
             if o["kind"] == "raise":
                 raise ampcheck.OracleFail("converts_to_both_languages", {"file": f["name"], "replica": [lang, how], "exc": o["exc"], "msg": o["msg"]})
+            if "bystander_fired" in o:
+                stats["bystander_prints_fired" if o["bystander_fired"] else "bystander_turn_after_the_call_ended"] = \
+                    stats.get("bystander_prints_fired" if o["bystander_fired"] else "bystander_turn_after_the_call_ended", 0) + 1
             obs[(fi, lang, how)] = o
         stats["clock_reads"], stats["clock_jumps"] = clock.reads, clock.jumps
         exact = clock.jumps == 0 and clock.reads >= stats["conversions"]
@@ -669,7 +688,9 @@ def run_c19(args: dict) -> dict:
                 present = [h for h in ("print", "ret", "cli") if (fi, lang, h) in obs]
                 if not present:
                     continue
-                if ("ret" in present) and obs[(fi, lang, "ret")]["stdout"] != "":
+                # a string-returning call prints nothing itself; what another thread printed meanwhile stays on stdout
+                foreign = BYSTANDER_LINE + "\n" if ("ret" in present and obs[(fi, lang, "ret")].get("bystander_fired")) else ""
+                if ("ret" in present) and obs[(fi, lang, "ret")]["stdout"] != foreign:
                     raise ampcheck.OracleFail("returned_text_is_the_printed_text",
                                               {"file": f["name"], "language": lang, "what": "ret_output=True wrote to stdout",
                                                "stdout": obs[(fi, lang, "ret")]["stdout"][:300]})
@@ -746,7 +767,7 @@ def c19_candidates(case: dict):
     base["files"], base["order"] = flist, order
     if case.get("clock"):
         yield {**base, "clock": []}
-    for k in ("wfilter", "table_fault_before"):
+    for k in ("wfilter", "table_fault_before", "bystander"):
         if case.get(k) is not None:
             yield {kk: vv for kk, vv in base.items() if kk != k}
     # a whole file out of the session
